@@ -55,11 +55,10 @@ IsBlank(t) == t \in {SP, NL, CT, CTS}
 \* ---- the reference reader -------------------------------------------------
 \* cut s at the tokens satisfying Cut: the (possibly empty) pieces between the cuts
 Pieces(s, Cut(_)) ==
-   LET F[i \in 0..Len(s)] ==
-          IF i = 0 THEN << <<>> >>
-          ELSE IF Cut(s[i]) THEN Append(F[i - 1], <<>>)
-          ELSE [F[i - 1] EXCEPT ![Len(F[i - 1])] = Append(@, s[i])]
-   IN F[Len(s)]
+   LET C      == {i \in 1..Len(s) : Cut(s[i])}
+       Pos(k) == IF k = 0 THEN 0 ELSE IF k > Cardinality(C) THEN Len(s) + 1
+                 ELSE CHOOSE i \in C : Cardinality({j \in C : j <= i}) = k          \* the k-th cut
+   IN [k \in 1..(Cardinality(C) + 1) |-> SubSeq(s, Pos(k - 1) + 1, Pos(k) - 1)]
 NonEmpty(ps) == SelectSeq(ps, LAMBDA p : p # <<>>)
 NoCmt(p)     == SelectSeq(p, LAMBDA t : t # CM)
 Strip(p)     == LET I == {i \in 1..Len(p) : ~IsBlank(p[i])} IN
@@ -99,6 +98,16 @@ CanFollow(mode, p2, p, hasC, firstLine, t) ==
      [] p = CM     -> t \in {CM, CT}
      [] p = CT     -> t = SP \/ IsWord(t) \/ (mode = "cm" /\ t = SEP)
      [] OTHER      -> FALSE
+
+\* a complete well-formed layout: every token may follow its predecessors and the last one is the final newline
+WellFormed(mode, lay) ==
+   /\ lay # <<>> /\ lay[Len(lay)] = NL
+   /\ \A i \in 1..Len(lay) :
+        LET pre == SubSeq(lay, 1, i - 1) IN
+        CanFollow(mode, IF i > 2 THEN lay[i - 2] ELSE 0, IF i > 1 THEN lay[i - 1] ELSE 0,
+                  \E a \in 1..(i - 1) : (IsWord(pre[a]) \/ pre[a] = SEP) /\ \A k \in a..(i - 1) : pre[k] \notin {NL, CM},
+                  \A a \in 1..(i - 1) : pre[a] # NL,
+                  lay[i])
 
 \* ---- list semantics ---------------------------------------------------------
 LHas(vs, v)      == \E i \in 1..Len(vs) : vs[i] = v
